@@ -140,6 +140,10 @@ pub enum Act {
     AckN { c: u8, n: u16 },
     /// complete the n oldest received PUBRELs in one batch
     CompN { c: u8, n: u16 },
+    /// DISCONNECT packet, then the client closes the socket: the link task sees the end of
+    /// the stream before it notices that the router dropped it, so its Disconnect event
+    /// (and the PublishWill) arrive late (`Late`)
+    DiscThenDrop { c: u8 },
 }
 
 pub struct Link {
@@ -319,6 +323,10 @@ impl RouterWorld {
     }
 
     pub fn send_event(&mut self, id: usize, ev: Event, mirror: ChanEv) {
+        if self.router.is_none() {
+            // the routing core is dead (reported as a violation): nobody reads the channel
+            return;
+        }
         if self.tx.try_send((id, ev)).is_err() {
             crate::vcore::machinery_error("router channel full: harness bound exceeded");
         }
